@@ -39,6 +39,41 @@ theorem gen_full_close_repays_all (shares liab r : Int) (liq : Bool) (hs : share
   rw [round2_mul_P]
   exact Int.mul_tdiv_cancel _ (by decide)
 
+/-- a partial close repays a part: for 0 ≤ closed ≤ held shares and a non-negative debt the repay amount is between 0 and the
+liabilities — a close can never repay (and so take out of the position's account) more than is owed. -/
+theorem gen_partial_close_repays_part (lp shares liab r : Int) (liq : Bool) (hl : 0 ≤ lp ∧ lp ≤ shares) (hs : 0 < shares) (hd : 0 ≤ liab)
+    (h : Gen.Arith.lpCloseRepay lp liq shares liab = .ok r) : 0 ≤ r ∧ r ≤ liab := by
+  unfold Gen.Arith.lpCloseRepay at h
+  have hs0 : shares ≠ 0 := by omega
+  simp only [hs0, if_false] at h
+  obtain ⟨t1, h1, h⟩ := bind_ok h
+  obtain ⟨t2, h2, h⟩ := bind_ok h
+  cases h
+  have hp : 0 < P := P_pos
+  have hsp : 0 < shares * P := Int.mul_pos hs hp
+  have hsp0 : shares * P ≠ 0 := by omega
+  unfold quoC at h1
+  simp only [hsp0, if_false] at h1
+  have e1 := chk_ok h1
+  subst e1
+  unfold mulC at h2
+  have e2 := chk_ok h2
+  subst e2
+  rw [mul_ofInt_left]
+  have hlp : 0 ≤ lp * P := Int.mul_nonneg hl.1 (by omega)
+  have hle : lp * P ≤ shares * P := Int.mul_le_mul_of_nonneg_right hl.2 (by omega)
+  have hq1 : Dec.quo (lp * P) (shares * P) ≤ P := quo_le_one _ _ hlp hle hsp
+  have hq0 : 0 ≤ Dec.quo (lp * P) (shares * P) := by
+    unfold Dec.quo
+    exact monotone_round2_le _ (Int.tdiv_nonneg (Int.mul_nonneg (Int.mul_nonneg hlp (by omega)) (by omega)) (by omega))
+  generalize Dec.quo (lp * P) (shares * P) = q at *
+  have h0 : 0 ≤ liab * q := Int.mul_nonneg hd hq0
+  have h1' : liab * q ≤ liab * P := Int.mul_le_mul_of_nonneg_left hq1 hd
+  constructor
+  · exact Int.tdiv_nonneg h0 (by omega)
+  · have : (liab * q).tdiv P ≤ (liab * P).tdiv P := Int.tdiv_le_tdiv hp h1'
+    rwa [Int.mul_tdiv_cancel _ (by omega)] at this
+
 /-- a position without shares cannot be closed (the division is refused, not performed). -/
 theorem gen_no_shares_refused (lp liab : Int) (liq : Bool) : Gen.Arith.lpCloseRepay lp liq 0 liab = .error .amountTooLow := rfl
 
